@@ -83,25 +83,25 @@ package lib
 //@ loop 1:
 //@   invariant 0 <= iter && iter <= len(c.CovertBlocklistSubnets) && fresh(c.covertBlocklistSubnets)
 //@   invariant forall i int :: 0 <= i && i < iter ==> validCIDR(c.CovertBlocklistSubnets[i])
-//@   modifies c.covertBlocklistSubnets
+//@   modifies c.covertBlocklistSubnets, elems(c.covertBlocklistSubnets)
 //@ loop 2:
 //@   invariant 0 <= iter && iter <= len(c.CovertBlocklistDomains) && fresh(c.covertBlocklistDomains)
 //@   invariant forall i int :: 0 <= i && i < iter ==> validRegexp(c.CovertBlocklistDomains[i])
-//@   modifies c.covertBlocklistDomains
+//@   modifies c.covertBlocklistDomains, elems(c.covertBlocklistDomains)
 //@ loop 3:
 //@   invariant 0 <= iter && iter <= len(c.PhantomBlocklist) && fresh(c.phantomBlocklist)
 //@   invariant forall i int :: 0 <= i && i < iter ==> validCIDR(c.PhantomBlocklist[i])
-//@   modifies c.phantomBlocklist
+//@   modifies c.phantomBlocklist, elems(c.phantomBlocklist)
 //@ loop 4:
 //@   invariant 0 <= iter && iter <= len(c.CovertAllowlistSubnets) && fresh(c.covertAllowlistSubnets)
 //@   invariant forall i int :: 0 <= i && i < iter ==> validCIDR(c.CovertAllowlistSubnets[i])
-//@   modifies c.covertAllowlistSubnets
+//@   modifies c.covertAllowlistSubnets, elems(c.covertAllowlistSubnets)
 //@ loop 5:
 //@   invariant fresh(c.covertBlocklistSubnets) && fresh(c.phantomBlocklist)
-//@   modifies c.covertBlocklistSubnets, c.phantomBlocklist
+//@   modifies c.covertBlocklistSubnets, c.phantomBlocklist, elems(c.covertBlocklistSubnets), elems(c.phantomBlocklist)
 //@ loop 6:
 //@   invariant fresh(c.covertBlocklistSubnets) && fresh(c.phantomBlocklist)
-//@   modifies c.covertBlocklistSubnets, c.phantomBlocklist
+//@   modifies c.covertBlocklistSubnets, c.phantomBlocklist, elems(c.covertBlocklistSubnets), elems(c.phantomBlocklist)
 
 // A configuration file that decodes may leave the embedded *RegConfig nil (no registration key present): loading it
 // must fail with an error, not panic (on SIGHUP the loader runs inside the live station).
@@ -170,7 +170,7 @@ package lib
 //@   invariant @C17: addrFreeStr(stats.ClientConnErr) && addrFreeStr(stats.CovertConnErr)
 //@   invariant !closed(dst) && !spawned_halfPipe_2(src) && wgdone(wg) == old(wgdone(wg)) && stats.proxyStats != nil && len(buf) == 32768 && fresh(buf)
 //@   invariant @C05: stats.BytesUp + stats.BytesDown == old(stats.BytesUp + stats.BytesDown) + nwritten(dst) - old(nwritten(dst))
-//@   modifies elems(buf), stats.BytesUp, stats.BytesDown, stats.ClientConnErr, stats.CovertConnErr, obj(stats.proxyStats), obj(&statInstance), rxh(src), txh(dst), nread(src), nwritten(dst), nwrites(dst), wfail(dst), now()
+//@   modifies elems(buf), stats.BytesUp, stats.BytesDown, stats.ClientConnErr, stats.CovertConnErr, obj(stats.proxyStats), obj(&statInstance), rxh(src), txh(dst), nread(src), rdEnded(src), nwritten(dst), nwrites(dst), wfail(dst), dlSet(src), dlSet(dst), now()
 
 // (Proxy itself is not under contract yet: the spawn-site preconditions of halfPipe did not discharge in time.)
 
@@ -235,6 +235,7 @@ package lib
 //@ func (r *RegisteredDecoys) totalRegistrations() int
 //@   requires r != nil && (held(&r.m) || rheld(&r.m) > 0)
 //@   ensures @C09: held(&r.m) == old(held(&r.m)) && rheld(&r.m) == old(rheld(&r.m))
+//@   assigns nothing
 //@ loop 1:
 //@   invariant held(&r.m) == old(held(&r.m)) && rheld(&r.m) == old(rheld(&r.m))
 
